@@ -1,12 +1,13 @@
 import Sess.Basic
 open Sess
 /-!
-Driver of the session object model (C08/C01): one scenario per line, `<store> <op,op,…>` with ops `Wa Wb Vbad Close Cancel`
+Driver of the session object model (C08/C01): one scenario per line, `<store>/<pin> <op,op,…>` with pins `none a x` and ops `Wa Wb Vbad Vgood Close CloseRaw Cancel`
 (harness/inpkg/store/upload_harness_test.go); prints the outcome of every call and whether the accepted bytes are
 published at the end: `<outs> pub=<0|1>`.
 -/
 def parseOp : String → Option Op
-  | "Wa" => some (.w 1) | "Wb" => some (.w 2) | "Vbad" => some .vbad | "Close" => some .close | "Cancel" => some .cancel
+  | "Wa" => some (.w 1) | "Wb" => some (.w 2) | "Vbad" => some .vbad | "Vgood" => some .vgood | "Close" => some .close
+  | "CloseRaw" => some .closeRaw | "Cancel" => some .cancel
   | _ => none
 
 def fmtOut : Out → String | .ok => "ok" | .err => "err"
@@ -17,7 +18,9 @@ def answer (line : String) : String :=
     match (ops.splitOn ",").mapM parseOp with
     | none => "bad-op"
     | some os =>
-      let (s, outs) := run (kind = "dir") {} os
+      let (store, pin) := match kind.splitOn "/" with | [a, b] => (a, b) | _ => (kind, "none")
+      let s0 : S := { pin := match pin with | "a" => some [1] | "x" => some [99] | _ => none }
+      let (s, outs) := run (store = "dir") s0 os
       ",".intercalate (outs.map fmtOut) ++ s!" pub={if s.published.contains s.written then 1 else 0}"
   | _ => "bad-op"
 
